@@ -35,8 +35,7 @@ fn opt2(x: (BoxedUint, Choice)) -> Option<BigUint> {
 pub fn boxed_inv(range: (usize, usize)) -> impl Fn(&mut Tape, &mut Case) -> CaseResult {
     move |t, c| {
         let n = boxed_len(t, range);
-        let md = gens::modulus(t, n, false);
-        let (al, acl) = gens::value(t, n, &md);
+        let (md, al, acl) = gens::modulus_value(t, n, false);
         let ml = limbs_exact(&md.m, n);
         c.limbs("a", &al);
         c.limbs("m", &ml);
@@ -138,7 +137,7 @@ pub fn boxed_mod2k(range: (usize, usize)) -> impl Fn(&mut Tape, &mut Case) -> Ca
 pub fn boxed_gcd(range: (usize, usize)) -> impl Fn(&mut Tape, &mut Case) -> CaseResult {
     move |t, c| {
         let n = boxed_len(t, range);
-        let (xl, yl, class) = gens::gcd_pair(t, n);
+        let (xl, yl, class) = gens::gcd_pair_w(t, n);
         c.limbs("x", &xl);
         c.limbs("y", &yl);
         let (xb, yb) = (big(&xl), big(&yl));
@@ -180,8 +179,7 @@ pub fn boxed_gcd(range: (usize, usize)) -> impl Fn(&mut Tape, &mut Case) -> Case
 pub fn boxed_monty(range: (usize, usize)) -> impl Fn(&mut Tape, &mut Case) -> CaseResult {
     move |t, c| {
         let n = boxed_len(t, range);
-        let md = gens::modulus(t, n, true);
-        let (al, acl) = gens::residue_value(t, n, &md);
+        let (md, al, acl) = gens::modulus_residue(t, n);
         let ml = limbs_exact(&md.m, n);
         let vartime_params = t.bool();
         c.limbs("a", &al);
